@@ -654,7 +654,7 @@ func ruleP13Decoders(p *Prog, r *Report) {
 			default:
 				continue
 			}
-			if len(emptySucc.Preds) == 1 {
+			{
 				msg := rejectComplete(emptySucc, func(ret *ssa.Return) string {
 					if p.nilnessAt(ret.Block(), retResult(ret, 0), 0) != nnNonNil {
 						return "returns nil for the empty value"
@@ -820,21 +820,19 @@ func ruleP13SortCopy(p *Prog, r *Report) {
 	r.check(okInput, rule, "input-untouched", p.pos(f.Pos()), "the input slice is only read by the copy", "the input slice is used by something other than the copy (it may be reordered in place)")
 	// sort call on the copy with a comparator literal
 	var less *ssa.Function
-	eachInstr(f, func(in ssa.Instruction) {
-		if c, ok := in.(ssa.CallInstruction); ok {
-			if g := staticCallee(c); g != nil && (g.String() == "sort.Slice" || g.String() == "sort.SliceStable") {
-				if sameValue(c.Common().Args[0], sorted) {
-					less = funcLiteral(c.Common().Args[1])
-				}
-			}
+	var site sortSite
+	for _, s := range p.sortSitesIn(f) {
+		if sameValue(s.coll, sorted) {
+			less, site = s.less, s
 		}
-	})
+	}
 	if less == nil {
 		r.bad(rule, "sorted", p.pos(f.Pos()), "the copy is not sorted with sort.Slice and a comparator literal")
 		return
 	}
 	// comparator: x = sorted[j].Date().IsAfterOrEqual(sorted[i].Date()); asc -> x ; desc -> !x
-	pi, pj := less.Params[0], less.Params[1]
+	pi, pj := site.i, site.j
+	isAsc := func(v ssa.Value) bool { return deref(site.outer(deref(v))) == ssa.Value(asc) }
 	elemIdx := func(v ssa.Value) ssa.Value {
 		n, recv, _, _ := methodCall(v)
 		if n != "Date" {
@@ -878,14 +876,14 @@ func ruleP13SortCopy(p *Prog, r *Report) {
 	for _, ret := range returnsOf(less) {
 		mode := "asc"
 		for _, g := range guardsOf(ret.Block()) {
-			if deref(g.Cond) == ssa.Value(asc) {
+			if isAsc(g.Cond) {
 				if g.Pol {
 					mode = "asc"
 				} else {
 					mode = "desc"
 				}
 			}
-			if u, ok := g.Cond.(*ssa.UnOp); ok && u.Op == token.NOT && deref(u.X) == ssa.Value(asc) {
+			if u, ok := g.Cond.(*ssa.UnOp); ok && u.Op == token.NOT && isAsc(u.X) {
 				if g.Pol {
 					mode = "desc"
 				}
@@ -894,9 +892,9 @@ func ruleP13SortCopy(p *Prog, r *Report) {
 		// `return isAscending == startWithOldest`: both modes in one expression
 		if bo, ok := strip(retResult(ret, 0)).(*ssa.BinOp); ok && (bo.Op == token.EQL || bo.Op == token.NEQ) {
 			other := ssa.Value(nil)
-			if deref(bo.X) == ssa.Value(asc) {
+			if isAsc(bo.X) {
 				other = bo.Y
-			} else if deref(bo.Y) == ssa.Value(asc) {
+			} else if isAsc(bo.Y) {
 				other = bo.X
 			}
 			if other != nil {
